@@ -446,7 +446,9 @@ func genTTMLDoc(r *rng) []byte {
 	for d := 0; d < nDiv; d++ {
 		b.WriteString(nl(2) + "<" + ns.el + "div>")
 		for c := r.intn(4); c > 0; c-- {
-			t += r.rangeI(0, 5000)
+			if t != 0 || !r.chance(1, 6) { // often a first cue at the very start
+				t += r.rangeI(0, 5000)
+			}
 			if r.chance(1, 10) {
 				t += r.rangeI(0, 99) * 3600000
 			}
@@ -719,7 +721,9 @@ func genTTMLSubs(r *rng) *astisub.Subtitles {
 	}
 	var t int64
 	for c := r.intn(5); c > 0; c-- {
-		t += r.rangeI(0, 5000)
+		if t != 0 || !r.chance(1, 6) {
+			t += r.rangeI(0, 5000)
+		}
 		if r.chance(1, 10) {
 			t += r.rangeI(0, 99) * 3600000
 		}
